@@ -6,6 +6,7 @@ State vector: _SessionStorage.outgoing (saved / restored between transitions).""
 from __future__ import annotations
 
 import ipaddress
+import itertools
 
 import someip.header as hdr
 import someip.sd as sd
@@ -344,16 +345,69 @@ def phase_notify(args):
         loop.dispose()
 
 
+def phase_leave(args):
+    """(v) a subscriber leaves (as the last one, or not) while the address lookup of a notification for it is pending, and
+    comes back: what it then receives continues the numbering of what reached the wire - ids are drawn when a datagram
+    is built and sent, never for one that is dropped"""
+    seed = args
+    viols = []
+    n = 0
+    for others, kind in itertools.product((False, True), ("initial", "round")):
+        loop = VLoop().install()
+        try:
+            s, eg = make_service(loop)
+            for e in range(3):
+                eg.values[e + 1] = bytes([e])
+            epa = hdr.IPv4EndpointOption(ipaddress.IPv4Address("192.0.2.41"), hdr.L4Protocols.UDP, 3041)
+            epb = hdr.IPv4EndpointOption(ipaddress.IPv4Address("192.0.2.42"), hdr.L4Protocols.UDP, 3042)
+            if others:
+                eg.subscribe(epb)
+                loop.settle()
+            if kind == "round":
+                eg.subscribe(epa)
+                loop.settle()
+            loop.gai_hold = 2
+            if kind == "initial":
+                eg.subscribe(epa)
+            else:
+                eg.notify_once([1, 2, 3])
+            loop.settle()
+            eg.unsubscribe(epa)
+            loop.settle()
+            loop.gai_hold = 0
+            while loop.gai_pending:
+                loop.release_gai(0)
+            loop.settle()
+            eg.subscribe(epa)
+            loop.settle()
+            eg.notify_once([1, 2, 3])
+            loop.settle()
+            counters = {}
+            for _, _, data, addr in s.transport.sent:
+                msgs, err, _ = refcodec.dec_someip_all(data)
+                for m in msgs:
+                    want = counters.get(addr, 0) % 0xFFFF + 1
+                    counters[addr] = m["session"]
+                    n += 1
+                    if m["session"] != want:
+                        viols.append(("notify-sequence", "gap-after-leave", f"subscriber left during the address lookup of its "
+                                      f"{kind} notification (other subscribers: {others}): id {m['session']} to {addr}, "
+                                      f"expected {want}", None))
+        finally:
+            loop.dispose()
+    return dict(phase="leave", states=4, transitions=n, viols=viols[:20], nviols=len(viols))
+
+
 def _run(job):
     kind, args = job
     return {"cycle": phase_cycle, "interleave": phase_interleave, "notify": phase_notify,
-            "sendrecv": phase_sendrecv}[kind](args)
+            "sendrecv": phase_sendrecv, "leave": phase_leave}[kind](args)
 
 
 def check(ctx):
     jobs = [("cycle", (ctx.seed, 20)), ("interleave", (ctx.seed, 3, 6)), ("notify", (ctx.seed, 8200)),
             ("sendrecv", (ctx.seed, ctx.pick(4, 6))), ("interleave", (ctx.seed, 3, 4, "v6scope")),
-            ("interleave", (ctx.seed, 3, 5, "fresh")), ("interleave", (ctx.seed + 1, 2, 6, "fresh"))]
+            ("interleave", (ctx.seed, 3, 5, "fresh")), ("interleave", (ctx.seed + 1, 2, 6, "fresh")), ("leave", ctx.seed)]
     if ctx.thorough:
         jobs += [("interleave", (ctx.seed, 4, 8)), ("interleave", (ctx.seed + 1, 2, 12)),
                  ("notify", (ctx.seed, 17000))]
